@@ -238,8 +238,12 @@ type Runner struct {
 	Dir      string
 	TimeoutS int
 	Thorough bool
-	mu       sync.Mutex
-	n        int
+	// CrossLight: in the thorough tier, re-check an obligation that z3-new
+	// already discharged with z3 4.8.12 only (cvc5 needs tens of seconds per
+	// query on the pair obligations of C10, of which there are thousands)
+	CrossLight bool
+	mu         sync.Mutex
+	n          int
 }
 
 // Discharge runs the portfolio on one VC.
@@ -270,6 +274,10 @@ func (r *Runner) Discharge(x *Exec, vc *VC) *Result {
 	if st == "unsat" || st == "sat" {
 		res.Status, res.Solver, res.Output = st, solvers[0].name, out
 		if !(r.Thorough && st == "unsat") {
+			if dir := os.Getenv("GOVC_SAVE"); dir != "" && os.Getenv("GOVC_SAVE_ALL") != "" {
+				os.MkdirAll(dir, 0o755)
+				os.WriteFile(filepath.Join(dir, unsafeName.ReplaceAllString(vc.Name, "_")+".smt2"), []byte(q), 0o644)
+			}
 			return res
 		}
 	}
@@ -280,6 +288,9 @@ func (r *Runner) Discharge(x *Exec, vc *VC) *Result {
 	}
 	ch := make(chan one, 3)
 	cands := []solverSpec{solvers[1], solvers[2]}
+	if r.CrossLight && st == "unsat" {
+		cands = []solverSpec{solvers[1]}
+	}
 	if st != "unsat" && st != "sat" && r.TimeoutS > quick {
 		cands = append(cands, solvers[0])
 	}
@@ -301,6 +312,10 @@ func (r *Runner) Discharge(x *Exec, vc *VC) *Result {
 				res.Output = "solver disagreement: " + strings.Join(res.Tried, " ")
 			}
 		}
+	}
+	if dir := os.Getenv("GOVC_SAVE"); dir != "" && (res.Status != "unsat" || os.Getenv("GOVC_SAVE_ALL") != "") {
+		os.MkdirAll(dir, 0o755)
+		os.WriteFile(filepath.Join(dir, unsafeName.ReplaceAllString(vc.Name, "_")+".smt2"), []byte(q), 0o644)
 	}
 	if res.Status == "" {
 		res.Status = "unknown"
